@@ -2,7 +2,7 @@
 namespace I2N.Extracted.Show
 def offRegexSrc : String := "^\\d+\\s+([\\w\\.-]+)\\s*(0 B)\\s+\\d{4}-\\d\\d-\\d\\d"
 def offRegexFlags : String := "re.MULTILINE"
-def onRegexSrc : String := "^\\d+\\s+([\\w\\.-]+)\\s*(\\d+e?[\\-\\+]?[\\.\\d]* \\w+)\\s+\\d{4}-\\d\\d-\\d\\d"
+def onRegexSrc : String := "^\\d+\\s+([\\w\\.-]+)\\s*(?!0 B)(\\d+e?[\\-\\+]?[\\.\\d]* \\w+)\\s+\\d{4}-\\d\\d-\\d\\d"
 def onRegexFlags : String := "re.MULTILINE"
 def ramSuffix : String := ".state"
 def ramCut : Nat := 6
